@@ -141,11 +141,10 @@ def make_run(run, schedule, policy, max_steps):
                     r = jc.stop_current()
                 elif run.stop_kind == 'stop_job':
                     r = jc.stop_job('first')
-                else:   # the body of WebApp.stop_all (tied by text, see tools/gen_clock.py)
-                    jc.clear_queue()
-                    r1 = jc.stop_current()
-                    r2 = jc.stop_background()
-                    r = r1 and r2
+                else:   # the real WebApp.stop_all, on an object that has just the controller
+                    import types
+                    from web.web_app import WebApp
+                    r = WebApp.stop_all(types.SimpleNamespace(_jobs=jc))
                 run.result['stop_returned'] = r
             except Exception as ex:
                 run.result['stop_raised'] = '%s: %s' % (type(ex).__name__, ex)
@@ -667,7 +666,7 @@ def run(ctx):
         for j, shape in enumerate(shapes if thorough else ['straight', 'timed', 'time-at']):
             combos = [(b, c) for b in bases for c in conts] if thorough else [(bases[(i + j) % 3], conts[(i + 2 * j) % 3])]
             for (b, c) in combos:
-                plan.append(('control', shape, kind, b, c, 1 if thorough else 3))
+                plan.append(('control', shape, kind, b, c, 1 if (thorough or (kind == 'stop_all' and shape == 'straight')) else 3))
     for (scenario, shape, kind, b, c, stride) in plan:
         base, started = base_run(scenario, shape, kind, b)
         if started is None:
@@ -689,7 +688,7 @@ def run(ctx):
                 if mt is None:
                     ctx.extra['not_sent_to_coq'] = ctx.extra.get('not_sent_to_coq', 0) + 1
                 else:
-                    coq_cases.append(((scenario, shape, kind, 'k=%d %s/%s' % (k, b, c)), mt, verdicts, s))
+                    coq_cases.append(((scenario, shape, kind, 'k=%d %s/%s' % (k, b, c)), mt, verdicts, s, facts))
     ctx.stage('systematic')
     ctx.extra['systematic_runs'] = n_runs
     # ---------------- random schedules (R takes part like any other thread) ----------------
@@ -713,7 +712,7 @@ def run(ctx):
         if scenario == 'agent':
             mt = model_terms(run, s) if s.step <= 900 else None
             if mt is not None:
-                coq_cases.append(((scenario, shape, kind, 'random #%d' % i), mt, verdicts, s))
+                coq_cases.append(((scenario, shape, kind, 'random #%d' % i), mt, verdicts, s, facts))
     ctx.stage('random')
     ctx.extra['random_runs'] = n_random
     ctx.extra['own_steps_after_stop_histogram'] = {str(k): v for k, v in sorted(own_hist.items())}
@@ -731,13 +730,13 @@ def coq_side(ctx, cases):
     per = 25
     parts = [cases[i:i + per] for i in range(0, len(cases), per)]
     for part in parts:
-        spec_files.append(''.join('Eval vm_compute in (spec_verdict %s).\n' % mt[3] for (_, mt, _, _) in part))
-        model_files.append(''.join('Eval vm_compute in (model_agrees %s %s %s).\n' % (mt[0], mt[1], mt[3]) for (_, mt, _, _) in part))
+        spec_files.append(''.join('Eval vm_compute in (spec_verdict %s).\n' % mt[3] for (_, mt, _, _, _) in part))
+        model_files.append(''.join('Eval vm_compute in (model_agrees %s %s %s).\n' % (mt[0], mt[1], mt[3]) for (_, mt, _, _, _) in part))
     res = common.run_cases('c09s', imports, spec_files)
     for (ok, strs, log), part in zip(res, parts):
         if not ok or len(strs) != len(part):
             raise RuntimeError('coq evaluation of the C09 specification failed: ' + log[-1500:])
-        for (label, mt, verdicts, s), v in zip(part, strs):
+        for (label, mt, verdicts, s, facts), v in zip(part, strs):
             f = dict(x.split('=') for x in v.split())
             scenario, shape, kind, how = label
             py_sigs = {sig for sig, _ in verdicts}
@@ -746,11 +745,19 @@ def coq_side(ctx, cases):
                 ctx.counterexample('C09/commands-after-stop', '%s %s %s: the specification finds a device command after the job thread had looked at the run flag again'
                                    % (scenario, shape, how), replay_payload(scenario, shape, kind, s))
             if f['prompt'] == 'F' and not py_sigs:
-                ctx.counterexample('C09/not-prompt', '%s %s %s: %s own steps of the job thread after stop() completed (bound 17)'
-                                   % (scenario, shape, how, f['own']), replay_payload(scenario, shape, kind, s))
+                if facts.get('clock_rearmed_after_stop'):
+                    ctx.counterexample('C09/stop-overwritten-by-clock-thread', '%s %s %s: %s own steps of the job thread after stop() completed (bound 17): '
+                                       'the clock thread wrote _keep_going = True after the stop had cleared it, the delay in progress was not cut short'
+                                       % (scenario, shape, how, f['own']), replay_payload(scenario, shape, kind, s))
+                else:
+                    ctx.counterexample('C09/not-prompt', '%s %s %s: %s own steps of the job thread after stop() completed (bound 17)'
+                                       % (scenario, shape, how, f['own']), replay_payload(scenario, shape, kind, s))
             if f['per_run'] == 'F' and not py_sigs & {'C09/late-stop-poisons-next-run', 'C09/stop-affects-later-run'}:
-                ctx.counterexample('C09/stop-affects-later-run', '%s %s %s: the next run on the same machine finds a flag cleared by the earlier stop'
-                                   % (scenario, shape, how), replay_payload(scenario, shape, kind, s))
+                go_down = any(e[1] == 'J2' and e[2] == 'read' and e[3] == '_keep_going' and e[4] is False for e in s.log)
+                ctx.counterexample('C09/next-run-finds-clock-flag-down' if go_down else 'C09/stop-affects-later-run',
+                                   '%s %s %s: the next run on the same machine finds %s' % (scenario, shape, how,
+                                   'its clock flag still cleared (by the previous run or its stop): wait() returns False, its delays are cut short' if go_down
+                                   else 'its run flag cleared by the earlier stop'), replay_payload(scenario, shape, kind, s))
             ctx.count()
     if ctx.model_runnable:
         res = common.run_cases('c09m', imports, model_files)
@@ -759,7 +766,7 @@ def coq_side(ctx, cases):
             if not ok or len(strs) != len(part):
                 ctx.broken_tie('correspondence', 'stop model evaluation', log[-1500:])
                 continue
-            for (label, mt, verdicts, s), got in zip(part, strs):
+            for (label, mt, verdicts, s, facts), got in zip(part, strs):
                 ctx.count()
                 if got != 'ok':
                     bad += 1
